@@ -4,6 +4,7 @@ import QF.Drv.SortAdv
 import QF.Drv.Ryu
 import QF.Drv.Like
 import QF.Drv.Sql
+import QF.Drv.GrpAdv
 /-
 qfdriver: replays a harness transcript (stdin) through the Lean model and spec.
 Output: one line per mismatch
@@ -57,6 +58,9 @@ partial def loop (h : IO.FS.Stream) (st : DState) (lineNo : Nat) : IO DState := 
     | "csvraw" | "csvread" =>
       let (cs, ms) := csvLine st.csv toks
       let st ← emit { st with csv := cs } lineNo ms
+      loop h st (lineNo + 1)
+    | "grpadv" =>
+      let st ← emit st lineNo (grpAdvLine toks)
       loop h st (lineNo + 1)
     | "conc" =>
       let st ← emit st lineNo (concLine toks)
